@@ -14,6 +14,9 @@ CLAIMED = {
  "C02": dict(engine="davtree", design="5 C02",
    technique="TLC-checked action property FailureAtomic on DavTree + trace validation of every failing observation (incl. body faults at every offset) by the TLC judge",
    text="Every recorded event with status >= 400 (or a panic) must leave the snapshot of the served directory unchanged; universe = failing share of the C01 products, the If-Match/If-None-Match table, and PUT bodies failing at every offset (short) / boundary+seeded offsets (70 kB), by I/O error and by context cancellation."),
+ "C03": dict(engine="davtree", design="5 C03",
+   technique="lexical path layer in TLA+ (DavTree.Normalize, laws checked by TLC in DavRaw); TLC-enumerated raw segment sequences on both channels replayed in several spellings; trace validation by the TLC judge with sandbox canaries",
+   text="Every raw segment sequence up to length 4 (thorough 5) over {name, name, .., ., empty} x 9 request shapes (request path and Destination channels) x 3 trees x 4 spellings (literal, %2e dots, %2F separators, absolute-URL form), unmappable forms (NUL, relative, *), follow-up request for every reported href, and seeded random byte-string paths: the sandbox around the root (parent, prefix-sharing sibling, same-name siblings, ancestors) must stay byte-identical, no canary secret may appear in a response, and each event must be a DavTree step for the path Normalize assigns. 'Reads nothing outside' is observed through canary secrets, not modelled."),
  "C04": dict(engine="davtree", design="5 C04",
    technique="CondOK truth table in the TLA+ DavTree spec judged by TLC on every (tree, conditional request) pair; TLC-simulated histories with announced entity tags threaded through the trace spec; helper/hand-over table judged by CondJudge",
    text="Exhaustive 6x6 If-Match x If-None-Match classes x {PUT, DELETE} x every path on every tree of the bounded instance (tags are real server announcements: current = announced since last write, stale = announced before a rewrite); histories validate that PUT/GET/HEAD/PROPFIND announce one and the same string for an unmodified resource; ConditionalMatch helpers and byte-for-byte hand-over to WebDAV/CalDAV/CardDAV backends over adversarial tag strings."),
